@@ -356,7 +356,9 @@ def copySuffix (st : TState) (sT : Bool) (v : Nat) (dT : Bool) (w : Nat) (n : Op
   else (if tS.spy then " ;s" ++ showTrace tr.2.1 else "") ++ (if tD.spy then " ;d" ++ showTrace (tr.1 ++ tr.2.2) else "")
 
 /-- Requests: `<request>` (tree 1), `2 <request>` (tree 2), `copy …` / `copyb …` / `fn …` (see `pstepLine`). -/
-def tstepLine (st : TState) (toks : List String) : TState × String :=
+def tstepLine (st : TState) (toks0 : List String) : TState × String :=
+  -- `~` = a nil slice, `-` = an empty non-nil slice: one and the same byte string (the contract does not tell them apart)
+  let toks := toks0.map (fun w => if w == "~" then "-" else w)
   match toks with
   | ["fn", "dbg"] => (st, dbgConstLine)
   | "fn" :: _ => let r := pstepLine st.p toks; ({ st with p := r.1 }, r.2)
